@@ -201,6 +201,80 @@ theorem membersV_spec {g : Schema → Json → Option Bool} {props : List (Strin
         cases addl <;> simp at h1 ⊢
     · exact ih h2 kv hkv
 
+/-- with a typed `additionalProperties`: an undeclared member is valid under that schema -/
+theorem membersV_spec_schema {g : Schema → Json → Option Bool} {props : List (String × Schema)} {sa : Schema} :
+    ∀ {kvs : List (String × Json)}, membersV g props (.schema sa) kvs = some true → ∀ kv ∈ kvs,
+      (∃ q, props.find? (fun p => p.1 == kv.1) = some q ∧ g q.2 kv.2 = some true) ∨
+      (props.find? (fun p => p.1 == kv.1) = none ∧ g sa kv.2 = some true) := by
+  intro kvs
+  induction kvs with
+  | nil => intro _ kv hkv; simp at hkv
+  | cons a r ih =>
+    intro h kv hkv
+    obtain ⟨k, v⟩ := a
+    simp only [membersV] at h
+    obtain ⟨h1, h2⟩ := and3_true h
+    simp only [List.mem_cons] at hkv
+    rcases hkv with rfl | hkv
+    · simp only at h1 ⊢
+      cases hf : props.find? (fun p => p.1 == k) with
+      | some q =>
+        obtain ⟨qk, qs⟩ := q
+        rw [hf] at h1
+        exact Or.inl ⟨(qk, qs), rfl, h1⟩
+      | none =>
+        rw [hf] at h1
+        exact Or.inr ⟨rfl, h1⟩
+    · exact ih h2 kv hkv
+
+/-- `foldFields` rejects only if a step does; `Inv` is what the steps may assume of the buffer -/
+theorem foldFields_NR_inv {named : Field → Except E (String × Val)}
+    {flat : Field → List (String × Json) → Except E Val × List (String × Json)}
+    (Inv : List (String × Json) → Prop) :
+    ∀ (ps : List Field) (c : List (String × Json)), Inv c →
+      (∀ p ∈ ps, p.rename ≠ .flatten → NR (named p)) →
+      (∀ p ∈ ps, p.rename = .flatten → ∀ c', Inv c' → NR (flat p c').1 ∧ Inv (flat p c').2) →
+      NR (foldFields named flat ps c).1 := by
+  intro ps
+  induction ps with
+  | nil => intro c _ _ _; simp [foldFields, NR]
+  | cons p ps ih =>
+    intro c hi hn hf
+    have ihr := fun c' hc' => ih c' hc' (fun q hq => hn q (by simp [hq])) (fun q hq => hf q (by simp [hq]))
+    simp only [foldFields]
+    split
+    · rename_i hfl
+      have hpf : p.rename = .flatten := by simpa using hfl
+      obtain ⟨h1, h1i⟩ := hf p (by simp) hpf c hi
+      cases hfp : flat p c with
+      | mk r c1 =>
+        rw [hfp] at h1 h1i
+        cases r with
+        | error e => simpa [NR] using h1
+        | ok v =>
+          simp only
+          have h2 := ihr c1 h1i
+          cases hrec : foldFields named flat ps c1 with
+          | mk r2 c2 =>
+            rw [hrec] at h2
+            cases r2 with
+            | error e => simpa [NR] using h2
+            | ok rs => simp [NR]
+    · rename_i hfl
+      have hpf : p.rename ≠ .flatten := by simpa using hfl
+      have h1 := hn p (by simp) hpf
+      cases hnp : named p with
+      | error e => rw [hnp] at h1; simpa [NR] using h1
+      | ok a =>
+        simp only
+        have h2 := ihr c hi
+        cases hrec : foldFields named flat ps c with
+        | mk r2 c2 =>
+          rw [hrec] at h2
+          cases r2 with
+          | error e => simpa [NR] using h2
+          | ok rs => simp [NR]
+
 theorem membersV_additional {g : Schema → Json → Option Bool} {sv : Schema} :
     ∀ {kvs : List (String × Json)}, membersV g [] (.schema sv) kvs = some true → ∀ kv ∈ kvs, g sv kv.2 = some true := by
   intro kvs
